@@ -239,7 +239,7 @@ def render_sdl(schema, rng=None, order=None, extend=False, comments=False, multi
         if k == "scalar":
             out.append(desc + "scalar %s%s" % (n, _type_dirs(rng, tags)))
         elif k == "enum":
-            out.append(desc + "enum %s%s {%s%s\n}" % (n, _type_dirs(rng, tags), sep, sep.join(v + (' @tag(name: "v")' if (tags and rng is not None and rng.random() < 0.2) else "") for v in d["values"])))
+            out.append(desc + "enum %s%s {%s%s\n}" % (n, _type_dirs(rng, tags), sep, sep.join(v + _dep_sdl((d.get("deprecated_values") or {}).get(v)) + (' @tag(name: "v")' if (tags and rng is not None and rng.random() < 0.2) else "") for v in d["values"])))
         elif k == "interface":
             out.append(desc + "interface %s%s {%s%s\n}" % (n, _type_dirs(rng, tags), sep, sep.join(_field_sdl(f, rng, tags) for f in d["fields"])))
         elif k == "object":
@@ -353,7 +353,7 @@ def _introspection_meta_types(s):
     ]
 
 
-def render_json(schema, wrapped=False, builtins="none", rng=None, order=None, sparse=False, one_of_key=True, indent=None):
+def render_json(schema, wrapped=False, builtins="none", rng=None, order=None, sparse=False, one_of_key=True, indent=None, decoys=False):
     """builtins: 'none' | 'scalars' (built-in scalars listed first) | 'all' (scalars + `__` meta types, interleaved when rng)"""
     s = schema
     names = list(order) if order is not None else list(s.order)
@@ -367,7 +367,8 @@ def render_json(schema, wrapped=False, builtins="none", rng=None, order=None, sp
             ft["kind"] = "SCALAR"
         elif k == "enum":
             ft["kind"] = "ENUM"
-            ft["enumValues"] = [{"name": v, "description": None, "isDeprecated": False, "deprecationReason": None} for v in d["values"]]
+            dv = d.get("deprecated_values") or {}
+            ft["enumValues"] = [{"name": v, "description": None, "isDeprecated": v in dv, "deprecationReason": (dv.get(v) or {}).get("reason")} for v in d["values"]]
         elif k == "interface":
             ft["kind"] = "INTERFACE"
             ft["fields"] = [_field_json(f, s, sparse) for f in d["fields"]]
@@ -389,6 +390,17 @@ def render_json(schema, wrapped=False, builtins="none", rng=None, order=None, sp
         if sparse:
             ft = {k2: v for k2, v in ft.items() if v is not None or k2 in ("kind", "name")}
         types.append(ft)
+    if decoys:
+        # types a real server lists although no operation here uses them: an enum whose values are all hidden (every value
+        # deprecated and the introspection query run without includeDeprecated), an unused scalar, an unused one-value enum.
+        # The enum without values goes in FRONT of the schema's own types, the others at random positions (or the end).
+        dec = [{"kind": "ENUM", "name": "ZzAllValuesHidden", "description": None, "fields": None, "inputFields": None, "interfaces": None, "enumValues": [], "possibleTypes": None},
+               {"kind": "SCALAR", "name": "ZzUnusedScalar", "description": None, "fields": None, "inputFields": None, "interfaces": None, "enumValues": None, "possibleTypes": None},
+               {"kind": "ENUM", "name": "ZzUnusedEnum", "description": None, "fields": None, "inputFields": None, "interfaces": None,
+                "enumValues": [{"name": "ONLY", "description": None, "isDeprecated": False, "deprecationReason": None}], "possibleTypes": None}]
+        types.insert(0, dec[0])
+        for e in dec[1:]:
+            types.insert(rng.randint(0, len(types)) if rng is not None else len(types), e)
     if builtins in ("scalars", "all"):
         extra = [_builtin_scalar(n) for n in BUILTIN_SCALARS]
         if builtins == "all":
